@@ -604,6 +604,8 @@ func (r *runner) cli() func() {
 					r.c.Fail("cli:crash-or-hang:"+sub, fmt.Sprintf("sysl %s on %s ended with status %d: %s", sub, label, code, tail(out)), rp)
 				case class == "" && code != 0:
 					r.c.Fail("cli:spurious-failure:"+sub, fmt.Sprintf("sysl %s fails (status %d) on the healthy closure %s: %s", sub, code, label, tail(out)), rp)
+				case isSoft(class) && code == 0:
+					// a compiled module that cannot be merged as it stands: accepting it is not judged
 				case faulty && code == 0:
 					r.c.Fail("cli:status-zero:"+sub+":"+class, fmt.Sprintf("sysl %s exits 0 although %s is faulty (%s)", sub, s.path(target), label), rp)
 				case faulty && sub != "import" && !strings.Contains(out, s.path(target)):
